@@ -134,6 +134,22 @@ impl Prop for C02 {
         self.left -= 1;
         let (cfg, table, alpha) = self.cur.as_ref().unwrap();
         let mut text = gen_text(rng, alpha, table);
+        if rng.chance(1, 1500) {
+            // scale stream: a document of 64 KiB .. 200 KiB (chunked or parallel processing of long inputs must not lose
+            // or move whitespace): short words, separator runs of 1..3 whitespace characters everywhere, so that every
+            // cut position a chunker could choose (32 KiB, 64 KiB, ... from either end) is likely to lie inside a run
+            let target = *rng.pick(&[65_536usize, 65_600, 70_000, 98_304, 131_072, 131_200, 200_000]) + rng.below(64);
+            text.clear();
+            while text.len() < target {
+                text.push_str(&gen_word(rng, alpha, 4));
+                for _ in 0..rng.range(1, 3) {
+                    text.push_str(*rng.pick(SEPS));
+                }
+            }
+            if rng.chance(1, 2) {
+                text.push_str(&gen_word(rng, alpha, 4));
+            }
+        }
         if rng.chance(1, 12) {
             // special-token spellings and near misses are ordinary text when special tokens are ignored
             let t = *rng.pick(&["<pad>", "<bos>", "<pad", "pad>", " <eos> ", "<<pad>>"]);
